@@ -86,11 +86,13 @@ def _P(E, **kw):
 
 @contract(SK + "sklearn_base.py::SkBase.set_params", "C01")
 class SkBaseSet(Contract):
-    variants = ["pa1", "pa2", "both"]
+    variants = ["pa1", "pa2", "both", "set_to_none", "was_none"]
 
     def setup(self, E, v):
-        s = E.new_obj(SK + "sklearn_base.py::SkBase", dict(P=_P(E, pa1=val(E, "a"), pa2=val(E, "b"))))
-        values = {"pa1": val(E, "na")} if v == "pa1" else ({"pa2": val(E, "nb")} if v == "pa2" else {"pa1": val(E, "na"), "pa2": val(E, "nb")})
+        s = E.new_obj(SK + "sklearn_base.py::SkBase", dict(P=_P(E, pa1=val(E, "a"), pa2=None if v == "was_none" else val(E, "b"))))
+        values = {"pa1": val(E, "na")} if v in ("pa1", "was_none") else ({"pa2": val(E, "nb")} if v == "pa2" else {"pa1": val(E, "na"), "pa2": val(E, "nb")})
+        if v == "set_to_none":
+            values = {"pa1": None}
         return dict(self=s, values=values, _given=values)
 
     def old(self, E, a):
@@ -213,7 +215,7 @@ def _stacking(E):
 @contract(SK + "sklearn_base_transform_stacking.py::SkBaseTransformStacking.set_params", "C01")
 class StackingSet(Contract):
     """12 members: every member index (one and two digits) x an arbitrary parameter name"""
-    variants = [("member", i) for i in range(NM)] + [("method", None), ("extra", None)]
+    variants = [("member", i) for i in range(NM)] + [("method", None), ("extra", None), ("extra_none", None)]
     max_paths = 20000
 
     def setup(self, E, v):
@@ -227,6 +229,8 @@ class StackingSet(Contract):
             values = {dicts.SymKey(key[0]): val(E, "newv")}
         elif kind == "method":
             values = {"method": "transform"}
+        elif kind == "extra_none":
+            values = {"extra": None}
         else:
             values = {"extra": val(E, "newextra")}
         return dict(self=s, values=values, _given=dict(values), _before=before)
@@ -296,6 +300,90 @@ class CakGet(Contract):
                     conj.append(same(lookup(E, res, z3.Concat(z3.StringVal(pre), k)), v))
             conj.append(z3.BoolVal(len(res) == 6))
             out["the_two_estimators_and_their_prefixed_parameters"] = z3.And(*conj)
+        return out
+
+
+# ----------------------------------------------------------------------------- ApproximateNMFPredictor (own get_params / set_params)
+ANMF = "mlinsights/mlmodel/anmf_predictor.py"
+NMF_NAMES = ["alpha_H", "alpha_W", "beta_loss", "init", "l1_ratio", "max_iter", "n_components", "random_state", "shuffle", "solver", "tol", "verbose"]
+
+
+def _nmf_names_model(E):
+    """ASSUMED: NMF._get_param_names() lists the constructor parameters of scikit-learn's NMF (sorted; 'force_positive' is not one of them)"""
+    E.registry.fns["sklearn.decomposition.NMF._get_param_names"] = lambda E_, *a: list(NMF_NAMES)
+    E.registry.fns["NMF._get_param_names"] = E.registry.fns["sklearn.decomposition.NMF._get_param_names"]
+
+
+def _anmf(E, given):
+    """an instance as the constructor leaves it: force_positive plus the NMF parameters the caller chose to pass (possibly None)"""
+    f = dict(force_positive=E.bool("force_positive"))
+    f.update(given)
+    return E.new_obj(ANMF + "::ApproximateNMFPredictor", f)
+
+
+def _anmf_variants(E):
+    return {"only_force_positive": {},
+            "with_values": dict(n_components=E.int("n_components"), tol=E.real("tol")),
+            "with_none_values": dict(n_components=None, init=None, random_state=None, max_iter=E.int("max_iter"))}
+
+
+@contract(ANMF + "::ApproximateNMFPredictor.get_params", "C01")
+class AnmfGet(Contract):
+    variants = ["only_force_positive", "with_values", "with_none_values"]
+
+    def setup(self, E, v):
+        _nmf_names_model(E)
+        given = _anmf_variants(E)[v]
+        return dict(self=_anmf(E, given), deep=True, _given=given)
+
+    def ensures(self, E, a, res, old, drop=None):
+        s = a.self
+        ok = isinstance(res, dict)
+        out = {"a_dictionary": z3.BoolVal(ok)}
+        if not ok:
+            return out
+        want = {k: s.fields[k] for k in NMF_NAMES + ["force_positive"] if k in s.fields and k != drop}
+        got = dict(dicts.items(res))
+        out["exactly_the_parameters_the_instance_holds_none_included"] = z3.BoolVal(set(got.keys()) == set(want.keys()))
+        out["each_with_the_value_it_holds"] = z3.And(*[same(got[k], v) for k, v in want.items() if k in got]) if want else z3.BoolVal(True)
+        return out
+
+    canaries = {"max_iter_is_not_reported": lambda E, a, res, old: AnmfGet().ensures(E, a, res, old, drop="max_iter" if "max_iter" in a._given else "force_positive")[
+        "exactly_the_parameters_the_instance_holds_none_included"]}
+
+
+@contract(ANMF + "::ApproximateNMFPredictor.set_params", "C01")
+class AnmfSet(Contract):
+    variants = ["overwrite", "overwrite_with_none", "new_nmf_parameter", "new_parameter_none", "force_positive", "two", "unknown"]
+
+    def setup(self, E, v):
+        _nmf_names_model(E)
+        s = _anmf(E, dict(n_components=E.int("n_components"), init="random"))
+        params = {"overwrite": dict(n_components=E.int("n2")), "overwrite_with_none": dict(init=None), "new_nmf_parameter": dict(tol=E.real("tol")),
+                  "new_parameter_none": dict(random_state=None), "force_positive": dict(force_positive=E.bool("fp2")),
+                  "two": dict(max_iter=E.int("mi"), init=None), "unknown": dict(not_a_parameter=E.int("x"))}[v]
+        return dict(self=s, params=params, _v=v)
+
+    def old(self, E, a):
+        return dict(fields={k: v for k, v in a.self.fields.items() if not k.startswith("$")})
+
+    def signals(self, E, a, exc, old):
+        if exc == "ValueError":
+            return {"only_an_unknown_name_is_refused": z3.BoolVal(a._v == "unknown"),
+                    "nothing_was_set": z3.BoolVal(all(a.self.fields.get(k) is v or same(a.self.fields.get(k), v) is not None and k in a.self.fields
+                                                      for k, v in old["fields"].items()) and set(a.self.fields) == set(old["fields"]))}
+        return None
+
+    def ensures(self, E, a, res, old):
+        s = a.self
+        out = {"returns_self": z3.BoolVal(res is s), "an_unknown_name_is_refused": z3.BoolVal(a._v != "unknown")}
+        t0 = len(E.trace)
+        got = E.call_method(s, "get_params", [], {}, None)
+        got = dict(dicts.items(got)) if isinstance(got, dict) else {}
+        want = dict(old["fields"])
+        want.update(a.params)
+        out["get_params_afterwards_is_the_old_parameters_updated_by_the_given_ones"] = z3.And(
+            z3.BoolVal(set(got.keys()) == set(want.keys())), *[same(got[k], v) for k, v in want.items() if k in got])
         return out
 
 
